@@ -222,6 +222,8 @@ def driving_finder(pid, failure, repo, seed):
             return None
         cmd = ["cargo", "test", "--offline", "-q", "-p", "rustzx-test", "--test", "verif_driving", "--", "--nocapture"]
         p = subprocess.run(cmd, cwd=scratch, env=dict(os.environ, CARGO_NET_OFFLINE="true"), capture_output=True, text=True, timeout=1500)
+        if "test result" not in p.stdout:
+            raise RuntimeError("native finder did not run (build error?): " + p.stderr[-400:])
         ms = re.findall(r"^MISMATCH .*$", p.stdout, re.M)
         if not ms:
             return None
@@ -246,6 +248,8 @@ def tape_finder(pid, failure, repo, seed):
                "--", "--nocapture"]
         p = subprocess.run(cmd, cwd=scratch, env=dict(os.environ, CARGO_NET_OFFLINE="true", VERIF_SEED=str(seed or 1)),
                            capture_output=True, text=True, timeout=1500)
+        if "test result" not in p.stdout:
+            raise RuntimeError("native finder did not run (build error?): " + p.stderr[-400:])
         ms = re.findall(r"^MISMATCH .*$", p.stdout, re.M)
         if not ms:
             return None
@@ -257,7 +261,32 @@ def tape_finder(pid, failure, repo, seed):
         shutil.rmtree(scratch, ignore_errors=True)
 
 
-FINDERS = {"z80": z80_finder, "contention": contention_finder, "driving": driving_finder, "tape": tape_finder}
+def szx_finder(pid, failure, repo, seed):
+    """C15 (bounded): one-block SZX files, every block id the loader looks into in four letter cases, every
+    declared size below the handler's minimum: load must return Err and never panic"""
+    import re, shutil
+    scratch = os.path.join(os.environ.get("VERIF_SCRATCH", "/var/tmp"), "vp-replay-%s-%d" % (pid, os.getpid()))
+    try:
+        r = subprocess.run([sys.executable, os.path.join(VERIF, "kani", "inject.py"), scratch, "--repo", repo,
+                            "--no-lock-bump"], capture_output=True, text=True)
+        if r.returncode != 0:
+            return None
+        cmd = ["cargo", "test", "--offline", "-q", "-p", "rustzx-test", "--test", "verif_szx", "--", "--nocapture"]
+        p = subprocess.run(cmd, cwd=scratch, env=dict(os.environ, CARGO_NET_OFFLINE="true"), capture_output=True, text=True, timeout=1500)
+        if "test result" not in p.stdout:
+            raise RuntimeError("native finder did not run (build error?): " + p.stderr[-400:])
+        ms = re.findall(r"^MISMATCH .*$", p.stdout, re.M)
+        if not ms:
+            return None
+        return dict(kind="szx-short-block", record=ms[0][:600], all=[m[:300] for m in ms[:8]],
+                    replay_cmd="python3 %s/kani/inject.py /var/tmp/vp-replay-szx --no-lock-bump >/dev/null && cd /var/tmp/vp-replay-szx && "
+                               "cargo test --offline -q -p rustzx-test --test verif_szx -- --nocapture; rc=$?; rm -rf /var/tmp/vp-replay-szx; test $rc -eq 0" % VERIF)
+    finally:
+        shutil.rmtree(scratch, ignore_errors=True)
+
+
+FINDERS = {"z80": z80_finder, "contention": contention_finder, "driving": driving_finder, "tape": tape_finder,
+           "szx": szx_finder}
 VERUS_FINDERS = {("ctl", "contention_clocks"): "contention",
                  ("ctl", "emulate_frames"): "driving", ("ctl", "reset_frame_counter"): "driving",
                  ("ctl", "take_events"): "driving", ("ctl", "take_last_emulation_error"): "driving",
